@@ -335,7 +335,14 @@ def d7_release_reads_own_inbound_only(ctx):
                key="D7:read-set-computed")
 
 
-RULES = [d1_engage, d2_effective_window, d3_release, d4_continuity, d5_silence_pull, d6_proof_stamps, d7_release_reads_own_inbound_only]
+def d8_never_blind(ctx):
+    """"never blind": whatever holds a link (latch or silence pull), it is gated only while some link witnesses a carrier test, and
+    every such witness is itself un-gated and admitted by both selectors - the gate chain of C03 (D1-D4 there), decided once and
+    reported under both properties.  With one carrier test per kind of hold, each test's witness must be free of *every* hold."""
+    C03.d1_d3_gate_chain(ctx)
+
+
+RULES = [d1_engage, d2_effective_window, d3_release, d4_continuity, d5_silence_pull, d6_proof_stamps, d7_release_reads_own_inbound_only, d8_never_blind]
 
 
 def run(ctx):
